@@ -6,6 +6,7 @@ import (
 	"go/types"
 	"runtime"
 	"strings"
+	"time"
 
 	"golang.org/x/tools/go/ssa"
 )
@@ -154,6 +155,11 @@ func runFrame(fr *frame) {
 			p.Steps++
 			if p.Steps > p.MaxSteps {
 				panic(pathAbort{abortBudget, "step budget exhausted in " + fr.fn.String()})
+			}
+			// a single path may not outlive the harness's wall-clock budget
+			// either (slow solver answers inside a loop that never ends)
+			if p.Steps&1023 == 0 && !p.WallDeadline.IsZero() && time.Now().After(p.WallDeadline) {
+				panic(pathAbort{abortBudget, "wall-clock budget exhausted in " + fr.fn.String()})
 			}
 			if visitInstr(fr, instr) == kReturn {
 				return
